@@ -83,6 +83,9 @@ func init() {
 
 type c15Gen struct {
 	r *rand.Rand
+	// opNames: integer variables may carry names of operators (registered variables only: in undefined-variable mode
+	// such a name is not a variable)
+	opNames bool
 }
 
 func (g *c15Gen) atom() *Node {
@@ -91,6 +94,9 @@ func (g *c15Gen) atom() *Node {
 		// (dotted and underscored names are ordinary identifiers)
 		return Var([]string{"b0", "b1", "b2", "u.vip", "_ok"}[g.r.Intn(5)], TBool)
 	case 1, 2:
+		if g.opNames && g.r.Intn(4) == 0 {
+			return Var([]string{"version", "date", "mod", "add", "between"}[g.r.Intn(5)], TInt)
+		}
 		return Var([]string{"i0", "i1", "i2", "acct.level", "n_1"}[g.r.Intn(5)], TInt)
 	case 3:
 		return Lit(g.r.Intn(2) == 0)
@@ -159,7 +165,8 @@ func (g *c15Gen) kind(k int, depth int) *Node {
 
 func c15Run(w *W, idx int) {
 	r := w.Rand(idx)
-	g := &c15Gen{r: r}
+	g := &c15Gen{r: r, opNames: idx%2 == 1}
+	undefinedMode := !g.opNames
 	var tree *Node
 	typed := false
 	nk := numChildKinds
@@ -238,11 +245,12 @@ func c15Run(w *W, idx int) {
 			bs = append(bs, Binding{Vals: map[string]interface{}{
 				"b0": r.Intn(2) == 0, "b1": r.Intn(2) == 0, "b2": r.Intn(2) == 0, "u.vip": r.Intn(2) == 0, "_ok": r.Intn(2) == 0,
 				"i0": int64(r.Intn(7) - 3), "i1": int64(r.Intn(7) - 3), "i2": int64(r.Intn(3)), "acct.level": int64(r.Intn(5)), "n_1": int64(r.Intn(5) - 2),
+				"version": int64(r.Intn(4)), "date": int64(r.Intn(4) - 1), "mod": int64(1 + r.Intn(3)), "add": int64(r.Intn(3)), "between": int64(r.Intn(3)),
 			}})
 		}
 	}
 	for _, o := range []OptSet{OptNone, OptAll} {
-		pcfg := cfgFor(tree, o, true)
+		pcfg := cfgFor(tree, o, undefinedMode)
 		pcc := buildConfig(pcfg, nil)
 		pe, pco := compileGuard(pcc, prefix)
 		w.Evals++
